@@ -313,7 +313,9 @@ class LowerToIRVisitor(Visitor.DefaultVisitor):
         self.v_Visit(expr.GetBody(), ctx)
         breakContinueInstructions = ctx.EndLoop()
 
-        # Conditional jump back to start or to end
+        # Conditional jump back to start or to end. The test lives in its own
+        # block so that continue re-tests the condition
+        condBB = ctx.CreateBasicBlock()
         condition = self.v_Visit(expr.GetCondition(), ctx)
         branch = LinearIR.BranchInstruction(startBB, None, condition)
         ctx.BasicBlock.AddInstruction(branch)
@@ -322,7 +324,7 @@ class LowerToIRVisitor(Visitor.DefaultVisitor):
         branch.SetFalseBlock(endBB)
 
         breakContinueInstructions.SetBreakTarget(endBB)
-        breakContinueInstructions.SetContinueTarget(startBB)
+        breakContinueInstructions.SetContinueTarget(condBB)
 
     def v_WhileStatement(self, expr: ast.WhileStatement, ctx: Context):
         # We lower this as following
